@@ -895,6 +895,17 @@ void Validator::ValidatorImpl::handleErrorsFromImports(size_t initialErrorCount,
                 size_t pos = description.find(notOriginMarker);
                 size_t originalDescriptionStart = 0;
                 while (pos != std::string::npos) {
+                    size_t startMarker = description.find(dataBoundaryMarker, pos);
+                    size_t endMarker = (startMarker == std::string::npos) ? std::string::npos : description.find(dataBoundaryMarker, startMarker + 1);
+                    if (endMarker == std::string::npos) {
+                        // This is not one of our markers (e.g., its text is part of a name).
+                        break;
+                    }
+                    std::string importInfo = description.substr(startMarker + 1, endMarker - startMarker - 1);
+                    auto ss = split(importInfo);
+                    if (ss.size() < 3) {
+                        break;
+                    }
                     if (depth == 0) {
                         os << "Imported ";
                         if (type == "Component") {
@@ -904,10 +915,6 @@ void Validator::ValidatorImpl::handleErrorsFromImports(size_t initialErrorCount,
                         }
                         os << "'" << name << "' is not valid because:" << std::endl;
                     }
-                    size_t startMarker = description.find(dataBoundaryMarker, pos);
-                    size_t endMarker = description.find(dataBoundaryMarker, startMarker + 1);
-                    std::string importInfo = description.substr(startMarker + 1, endMarker - startMarker - 1);
-                    auto ss = split(importInfo);
                     os << "  -> " << type << " '" << ss[0] << "' importing '" << ss[1] << "' from '" << ss[2] << "'";
                     originalDescriptionStart = endMarker + 1;
                     pos = description.find(notOriginMarker, pos + 1);
